@@ -78,6 +78,14 @@ CHECKS = {
             "After every step the registry must map every open model's name to that model, collisions must rename the old model "
             "to a _BAK name without overwriting, and the descriptions and held values of untouched models must be unchanged.",
             "dict reference of the documented naming rules; closed handles are not operated on"),
+    "C20": ("exploration",
+            "grammar-based property testing (Hypothesis) of function texts x delivery forms against plain Python (exec of the original text), with round-trip/idempotence and metamorphic rename/doc-edit relations",
+            "Function texts are generated from a grammar of syntactic shapes (decorators, docstring quotings, comments in all "
+            "positions, nested defs/lambdas/classes, comprehensions, multi-line expressions, odd indentation, embedded lambdas) and "
+            "delivered as source, as function objects imported from generated module files, and as lambda objects. The cells must "
+            "behave like the plain function, formula.source must compile standalone and reproduce itself, rename must change only "
+            "the name token and a doc edit only the docstring (or be rejected inertly).",
+            "identity decorators only (modelx strips decorators by design); two lambdas on one line are not generated for lambda objects"),
 }
 
 NOT_YET = {
